@@ -3,7 +3,7 @@
     generated statement table) and on the reference map, through the KV
     wrapper model, and compared with the observed results. *)
 From Coq Require Import List NArith Bool String.
-From Verif Require Import Kv.KeyOrd Kv.AList Kv.Spec Kv.Mem Kv.Sql Gen.KvSql.
+From Verif Require Import Kv.KeyOrd Kv.AList Kv.Spec Kv.Mem Kv.Sql Kv.Tables Gen.KvSql.
 Import ListNotations.
 Local Open Scope N_scope.
 
@@ -98,7 +98,9 @@ Fixpoint inc_rev (l : bytes) : bytes :=
 Definition incr_dec (bs : bytes) : option bytes :=
   match bs with
   | [] => None
-  | _ => if forallb is_digit bs then Some (rev (inc_rev (rev bs))) else None
+  | _ => if forallb is_digit bs
+         then Some (rev_append (inc_rev (rev_append bs [])) [])   (* linear; [rev] is quadratic *)
+         else None
   end.
 
 Definition mf_ok (v : bytes) : bytes -> mres := fun _ => MSet v.
@@ -106,6 +108,12 @@ Definition mf_err : bytes -> mres := fun _ => MFail EUser.
 Definition mf_cancel : bytes -> mres := fun _ => MFail ECancel.
 Definition mf_incr : bytes -> mres :=
   fun bs => match incr_dec bs with Some b => MSet b | None => MFail EUser end.
+(** the function changed its argument and then returned an error / ErrCancel:
+    what it did to the argument is dropped ([mf_err], [mf_cancel]); it left a
+    value json.Marshal refuses; it panicked (the harness recovers its own
+    panic value and records it as such) *)
+Definition mf_bad : bytes -> mres := fun _ => MFail EDecode.
+Definition mf_panic : bytes -> mres := fun _ => MFail EPanic.
 
 (** ** Comparison *)
 
@@ -157,8 +165,12 @@ Inductive ccase :=
         (expect : list result)
     (* histories inside the statement: the backend model and the reference map *)
 | CModel (st : store) (ordered : bool) (hk : list (key * key)) (ops : list uop)
-         (expect : list result).
+         (expect : list result)
     (* observations outside the statement (offsets / limits >= 2^63): the backend model only *)
+| CMulti (st : store) (hs : list hdesc) (slots : nat) (hk : list (key * key)) (ops : list lop)
+         (expect : list result).
+    (* several handles over table slots (pisces.Tables), with the table life
+       cycle: the backend model and the reference maps, lifted by Kv/Tables.v *)
 
 Definition backend_step (st : store) : table -> bop -> table * result :=
   match st with
@@ -172,6 +184,14 @@ Definition model_results (st : store) (ordered : bool) hk (ops : list uop) : lis
 Definition spec_results (ordered : bool) hk (ops : list uop) : list result :=
   snd (run (kv_step gen_max_key_len ordered (hk_fun hk) json_ok spec_step) [] ops).
 
+Definition persistent_of (st : store) : bool :=
+  match st with StMem => false | StSql => true end.
+
+Definition multi_results (bstep : table -> bop -> table * result) (st : store) hs slots hk
+  (ops : list lop) : list result :=
+  snd (run (l_step gen_max_key_len (hk_fun hk) json_ok bstep (persistent_of st) hs)
+           (init_state (persistent_of st) slots) ops).
+
 Definition check_case (c : ccase) : bool :=
   match c with
   | CHist st ordered hk ops expect =>
@@ -179,6 +199,9 @@ Definition check_case (c : ccase) : bool :=
       list_eqb result_eqb (spec_results ordered hk ops) expect
   | CModel st ordered hk ops expect =>
       list_eqb result_eqb (model_results st ordered hk ops) expect
+  | CMulti st hs slots hk ops expect =>
+      list_eqb result_eqb (multi_results (backend_step st) st hs slots hk ops) expect &&
+      list_eqb result_eqb (multi_results spec_step st hs slots hk ops) expect
   end.
 
 Fixpoint mismatches_from (i : nat) (cs : list ccase) : list nat :=
